@@ -23,7 +23,12 @@ import (
 	"time"
 )
 
-const verifDir = "/verif"
+var verifDir = func() string {
+	if d := os.Getenv("VERIF_DIR"); d != "" {
+		return d
+	}
+	return "/verif"
+}()
 
 type Violation struct {
 	Property string `json:"property"`
@@ -73,7 +78,7 @@ var specs = map[string]*PropSpec{}
 
 func env() []string {
 	e := os.Environ()
-	e = append(e, "GOFLAGS=-mod=mod", "GOPROXY=off", "GOSUMDB=off", "GOTOOLCHAIN=local", "GODEBUG=randautoseed=0")
+	e = append(e, "GOFLAGS=-mod=mod", "GOPROXY=off", "GOSUMDB=off", "GOTOOLCHAIN=local", "GODEBUG=randautoseed=0", "VERIF_KNOWN="+filepath.Join(verifDir, "known_findings.jsonl"))
 	return e
 }
 
